@@ -151,6 +151,22 @@ def handle : List String → String
       | some s => showSt s
       | none => "none"
     | _, _ => "bad-op"
+  | "unwrap" :: nia :: rest =>       -- inst unwrap <n> {interface atoms} <nθ> {type} <clause type>  ->  val | iface
+    match nia.toNat? with
+    | some nia =>
+      match takeNats nia rest with
+      | some (ias, nθ :: r1) =>
+        match nθ.toNat? with
+        | some nθ =>
+          match takeTys nθ r1 with
+          | some (θ, [t]) =>
+            match parseType t with
+            | some t => if unwrapIn (fun b => ias.contains b) [] θ t then "val" else "iface"
+            | none => "bad-op"
+          | _ => "bad-op"
+        | none => "bad-op"
+      | _ => "bad-op"
+    | none => "bad-op"
   | "subst" :: nN :: rest =>
     match nN.toNat? with
     | some nN =>
